@@ -254,7 +254,20 @@ fn faults(r: &mut Rng, env: &Env, actor: &Option<T>) -> Vec<(Env, Option<T>, &'s
         let (holder, svc, alias, link, inner) = (pool[0], pool[1], pool[2], pool[3], pool[4]);
         let nonfunc = r.pick(&[T::p("text"), T::opt(T::p("nat")), T::rec(vec![]), T::Serv(vec![])]).clone();
         let f_using = |x: &str| T::Func(vec![T::var(x)], vec![], vec![]);
-        match r.below(4) {
+        match r.below(6) {
+            4 | 5 => { // the service sits INSIDE a definition: in a function's arguments or results, under opt / vec / record / variant
+                let mut e = env.clone();
+                let mut t = T::Serv(vec![("m".into(), T::var(alias))]);
+                for _ in 0..r.range(1, 4) {
+                    t = match r.below(7) {
+                        0 => T::Func(vec![], vec![t], vec![]), 1 => T::Func(vec![t], vec![], vec![]), 2 => T::opt(t), 3 => T::vec(t),
+                        4 => T::rec(vec![(1, t)]), 5 => T::variant(vec![(1, t)]), _ => T::Func(vec![T::p("nat")], vec![T::p("text"), t], vec![1]),
+                    };
+                }
+                e.push((holder.into(), t));
+                e.push((alias.into(), nonfunc));
+                out.push((e, actor.clone(), "non-function-method-nested"));
+            }
             0 => { // another definition refers to the alias
                 let mut e = env.clone();
                 e.push((holder.into(), T::rec(vec![(0, T::var(alias))])));
